@@ -270,12 +270,14 @@ class FakeStdin:
 
 
 class FakeStdout:
-    """In held mode the *effect* of write (appending to the output) happens when the explorer releases
-    it - a thread pool may run queued jobs in any order."""
+    """A buffered text stream: what is written becomes visible to the peer (`out`) only when it is flushed.
+    In held mode the *effect* of write / flush happens when the explorer releases it - a thread pool may run
+    queued jobs in any order."""
 
     def __init__(self, loop):
         self.loop = loop
         self.out = ""
+        self.unflushed = ""
         self.held = False
         self.pending = []  # (kind, payload, future)
         self.write_exc = None
@@ -288,18 +290,24 @@ class FakeStdout:
             self.pending.append(("write", data, fut))
             await fut
         else:
-            self.out += data
+            self.unflushed += data
 
     async def flush(self):
         if self.held:
             fut = self.loop.create_future()
             self.pending.append(("flush", None, fut))
             await fut
+        else:
+            self.out += self.unflushed
+            self.unflushed = ""
 
     def release(self, i):
         kind, data, fut = self.pending.pop(i)
         if kind == "write":
-            self.out += data
+            self.unflushed += data
+        else:
+            self.out += self.unflushed
+            self.unflushed = ""
         if not fut.done():
             fut.set_result(None)
 
